@@ -42,22 +42,34 @@ ASSUMPTIONS = ['os.urandom quality is not assessed']
 class _Under(object):
     """underlying socket + file sharing one inbound ciphertext stream"""
 
-    def __init__(self, inbound):
+    def __init__(self, inbound, short=None):
         self.sent = []
         self.inbound = bytearray(inbound)
         self.taken = []
+        self.short = list(short or [])     # max bytes per underlying read
+        self.k = 0
 
     def send(self, b):
         self.sent.append(bytes(b))
         return len(b)
 
     def recv(self, n):
+        # an unbuffered socket may return fewer bytes than asked for even
+        # though more will follow (short read)
+        if self.short:
+            n = min(n, max(1, self.short[self.k % len(self.short)]))
+            self.k += 1
         out = bytes(self.inbound[:n])
         del self.inbound[:n]
         self.taken.append(out)
         return out
 
     read = recv
+
+    def readinto(self, b):
+        data = self.recv(len(b))
+        b[:len(data)] = data
+        return len(data)
 
     def fileno(self):
         return 7
@@ -75,7 +87,7 @@ def stream_case(ctx, case):
     ctx.ev()
     fast = not case.get('pure')
     in_cipher = aes.cfb8_encrypt(secret, secret, inp, fast)
-    under = _Under(in_cipher)
+    under = _Under(in_cipher, case.get('short'))
     cipher = encryption.create_AES_cipher(secret)
     enc, dec = cipher.encryptor(), cipher.decryptor()
     sock = encryption.EncryptedSocketWrapper(under, enc, dec)
@@ -196,8 +208,115 @@ def login_secrets_case(ctx, case):
     ctx.label('logins')
 
 
+def installed_case(ctx, case):
+    """The wrappers exactly as the library's own login reaction installs
+    them: feed an encryption request to the real LoginReactor on a
+    connection over the in-memory network, let an independent peer recover
+    the secret from the reply (raw RSA), then push ciphertext in both
+    directions and consume the inbound stream through BOTH
+    connection.socket.recv() and connection.file_object.read() in a drawn
+    interleaving.  case {bits, token, inp, in_ops, out, out_cuts, plan}"""
+    from vlib import vnet, servers, wire
+    from minecraft.networking import connection as C
+    from minecraft.networking.packets import clientbound
+    ctx.ev()
+    k = rsa.key(case.get('bits', 1024))
+    token = case.get('token', b'\x01\x02\x03\x04')
+
+    class Peer(servers.Script):
+        secret = None
+        plain_in = b''
+
+        def on_bytes(self, data):
+            if self.dec is not None:
+                self.plain_in += self.dec.decrypt(data)
+                return
+            self.buf += data
+            try:
+                n, p = wire.read_varint(self.buf, 0)
+            except wire.WireError:
+                return
+            if p + n > len(self.buf):
+                return
+            body = bytes(self.buf[p:p + n])
+            rest = bytes(self.buf[p + n:])
+            del self.buf[:]
+            pid, q = wire.read_varint(body, 0)
+            f = servers.decode(757, 'encryption_response', body[q:])
+            self.secret = rsa.decrypt_pkcs1_v15(k, f['shared_secret'])
+            self.token_back = rsa.decrypt_pkcs1_v15(k, f['verify_token'])
+            self.enable_encryption(self.secret)
+            if rest:
+                self.plain_in += self.dec.decrypt(rest)
+    peer = Peer()
+    plan = case.get('plan', 'whole')
+    if isinstance(plan, tuple):
+        plan = list(plan)
+    world = vnet.World(servers=[peer], plan=plan)
+    world.block_guard = 0
+    inp, out = case['inp'], case['out']
+    got = []
+    try:
+        with vnet.installed(world):
+            conn = C.Connection('localhost', 25565, username='u',
+                                allowed_versions={757})
+            conn._connect()
+            conn.reactor = C.LoginReactor(conn)
+            req = clientbound.login.EncryptionRequestPacket()
+            req.context = conn.context
+            req.server_id, req.public_key, req.verify_token = \
+                '-', k['der'], token
+            conn.reactor.react(req)
+            if peer.secret is None or peer.token_back != token:
+                ctx.fail('installed', 'E4-secret-not-recovered', case)
+                return
+            # outbound through the installed socket wrapper
+            pos = 0
+            cuts = case.get('out_cuts') or [len(out) or 1]
+            i = 0
+            while pos < len(out):
+                c = max(1, cuts[i % len(cuts)])
+                conn.socket.send(out[pos:pos + c])
+                pos += c
+                i += 1
+            # inbound: ciphertext from the peer, consumed via recv AND read
+            peer.raw_emit(inp)
+            peer.close()
+            ops = list(case.get('in_ops') or [('read', 4096)])
+            j = 0
+            total = 0
+            while total < len(inp):
+                kind, n = ops[j % len(ops)]
+                j += 1
+                r = conn.socket.recv(max(1, n)) if kind == 'recv' \
+                    else conn.file_object.read(max(1, n))
+                if not r:
+                    break
+                got.append(r)
+                total += len(r)
+    except vnet.BlockedForever:
+        ctx.fail('installed', 'E2-read-blocks', case)
+        return
+    except Exception as e:
+        ctx.fail('installed', 'E-raises', case, exc=e)
+        return
+    if b''.join(got) != inp:
+        g = b''.join(got)
+        n = next((x for x in range(min(len(g), len(inp))) if g[x] != inp[x]),
+                 min(len(g), len(inp)))
+        ctx.fail('installed', 'E2-plaintext-mixed-recv-read', case,
+                 'differs at byte %d of %d' % (n, len(inp)))
+    if peer.plain_in != out:
+        ctx.fail('installed', 'E1-ciphertext-installed', case)
+    kinds = {o[0] for o in (case.get('in_ops') or [])}
+    if len(kinds) == 2 and len(inp) > 16:
+        ctx.nt('inst', peer.secret, inp, repr(case.get('in_ops')))
+    ctx.label('installed_wrappers')
+
+
 COMPONENTS = {'stream': stream_case, 'rsa': rsa_case,
-              'login_secrets': login_secrets_case}
+              'login_secrets': login_secrets_case,
+              'installed': installed_case}
 
 
 def _stream_strategy(maxlen):
@@ -222,7 +341,9 @@ def _stream_strategy(maxlen):
                    max_size=25)
     return st.fixed_dictionaries({
         'secret': secret, 'out': data, 'out_cuts': cuts, 'inp': data,
-        'in_ops': ops, 'order': st.lists(st.booleans(), max_size=8)})
+        'in_ops': ops, 'order': st.lists(st.booleans(), max_size=8),
+        'short': st.one_of(st.just([]), st.lists(st.integers(1, 40),
+                                                 min_size=1, max_size=6))})
 
 
 def t_streams(ctx, n, maxlen, pure_every):
@@ -251,7 +372,8 @@ def t_fixed(ctx):
                         'inp': data[::-1],
                         'in_ops': [('recv', c) if j % 2 else ('read', c)
                                    for j, c in enumerate(cuts * 3)],
-                        'order': [True, False], 'pure': pure})
+                        'order': [True, False], 'pure': pure,
+                        'short': [] if n % 2 else [5, 16, 3]})
     ctx.exhaustive_done('fixed secrets x lengths around the block size x '
                         'partitions, pure and fast reference')
 
@@ -275,6 +397,36 @@ def t_rsa(ctx, n):
     hyp(ctx, 'rsa', strat, body, n)
 
 
+def t_installed(ctx, n):
+    data = st.one_of(st.binary(max_size=100),
+                     st.integers(0, 3000).map(
+                         lambda m: bytes(i % 253 for i in range(m))))
+    ops = st.lists(st.tuples(st.sampled_from(['recv', 'read']),
+                             st.sampled_from([1, 5, 15, 16, 17, 64, 300])),
+                   min_size=1, max_size=12)
+    strat = st.fixed_dictionaries({
+        'bits': st.sampled_from([1024, 1024, 2048]),
+        'token': st.binary(min_size=1, max_size=64),
+        'inp': data, 'out': data, 'in_ops': ops,
+        'out_cuts': st.lists(st.integers(1, 200), min_size=1, max_size=5),
+        'plan': st.one_of(st.just('whole'), st.just('one'),
+                          st.lists(st.integers(1, 50), min_size=1,
+                                   max_size=5))})
+
+    def body(c, case):
+        installed_case(c, case)
+        if c.evaluations % 50 == 1:
+            c.sample({k_: (v if not isinstance(v, bytes) or len(v) < 40
+                           else '%d bytes' % len(v))
+                      for k_, v in case.items()}, 'installed')
+    for ops_ in ([('read', 27)], [('recv', 29)],
+                 [('read', 300), ('recv', 300)], [('recv', 1), ('read', 1)]):
+        installed_case(ctx, {'inp': bytes(range(256)) * 12,
+                             'out': bytes(range(200)) * 15, 'in_ops': ops_,
+                             'out_cuts': [100, 1, 17], 'plan': 'whole'})
+    hyp(ctx, 'installed', strat, body, n)
+
+
 def t_logins(ctx, k, version, bits):
     login_secrets_case(ctx, {'k': k, 'version': version, 'bits': bits})
     ctx.sample({'k': k, 'version': version, 'bits': bits}, 'logins')
@@ -289,6 +441,9 @@ def tasks(tier):
                         pure_every=10 if q else 50)))
     for i in range(2 if q else 4):
         tl.append(('rsa_%d' % i, t_rsa, dict(n=150 if q else 1500)))
+    for i in range(2 if q else 6):
+        tl.append(('installed_%d' % i, t_installed,
+                   dict(n=100 if q else 3000)))
     for i, (v, b) in enumerate([(757, 1024), (47, 2048), (340, 1024),
                                 (578, 1024)]):
         tl.append(('logins_%d' % i, t_logins,
